@@ -208,6 +208,8 @@ EDIT_PROP = {"set_scheme": "C05", "set_authority": "C05", "set_path": "C05", "se
 
 def charge_edit(ev, why):
     """Properties a non-conforming edit event is charged to."""
+    if ev.get("ev") == "origin":
+        return ["C04", "C13"]
     props = [EDIT_PROP.get(ev.get("op"), "C04")]
     if why in ("panic", "invalid"):
         props.append("C04")
@@ -218,7 +220,7 @@ def drive_and_validate(c, tier, ops=None):
     """Direction B: random edit histories on the real buffers, each call judged by TLC."""
     hist, steps = (1000, 30) if tier == "quick" else (15000, 40)
     ev = vlib.run_drive("%s-%s" % (c.pid, tier), hist, steps)
-    sel = (lambda e: e.get("op") in ops) if ops else None
+    sel = (lambda e: e.get("op") in ops) if ops else None     # "origin" events have no op: C04 (ops=None) only
     crash = vlib.LAST_DRIVE_CRASH.get(ev)
     if crash is not None and (sel is None or sel(crash)):
         props = charge_edit(crash, "panic")
